@@ -8,7 +8,6 @@ import (
 	"sync"
 	"time"
 
-	dbm "github.com/tendermint/tm-db"
 
 	"github.com/tendermint/tendermint/crypto"
 	"github.com/tendermint/tendermint/evidence"
@@ -24,7 +23,7 @@ var intervals = []time.Duration{time.Second, 5 * time.Second, time.Minute, time.
 
 func newHist(c *verdict.Ctx, idx int) *hist {
 	h := &hist{c: c, idx: idx, r: c.Rand("hist", idx), phantom: map[string]crypto.PrivKey{},
-		lcaVerdict: map[string]lcaInfo{}, committed: map[string]int64{}, prev: map[string]string{},
+		lcaVerdict: map[string]lcaInfo{}, dveMemo: map[string]lcaInfo{}, committed: map[string]int64{}, prev: map[string]string{},
 		prevItems: map[string]types.Evidence{}, prevHeights: map[string]int64{}}
 	r := h.r
 	nvals := 2 + r.Intn(6)
@@ -64,7 +63,7 @@ func newHist(c *verdict.Ctx, idx int) *hist {
 		h.paramAt = int64(10 + r.Intn(heights-10))
 		h.paramAge = int64(2 + r.Intn(19))
 	}
-	h.evDB = dbm.NewMemDB()
+	h.evDB = newSnapDB() // snapshot iterators, see snapdb.go
 	h.px = &poolProxy{}
 	h.ch = chaingen.New(chaingen.Options{Seed: c.SubSeed("keys", idx), Powers: powers, Params: params, BlockInterval: interval,
 		EvPool: func(ss sm.Store, bs *store.BlockStore) sm.EvidencePool {
@@ -251,7 +250,10 @@ func Run(c *verdict.Ctx) int {
 		go func() {
 			defer wg.Done()
 			for idx := range next {
-				func() {
+				idx := idx
+				done := make(chan struct{})
+				go func() {
+					defer close(done)
 					defer func() {
 						if r := recover(); r != nil {
 							c.HarnessError("C11 history %d panicked: %v\n%s", idx, r, debug.Stack())
@@ -259,6 +261,11 @@ func Run(c *verdict.Ctx) int {
 					}()
 					runHistory(c, idx)
 				}()
+				select {
+				case <-done:
+				case <-time.After(20 * time.Minute): // generous watchdog; a history takes well under a second of CPU
+					c.Inconclusive(fmt.Sprintf("history %d did not finish within the 20 min watchdog", idx))
+				}
 			}
 		}()
 	}
